@@ -70,6 +70,7 @@ def evaluate(i, tier, props):
     finally:
         subprocess.check_call(['git', '-C', '/repo', 'checkout', '--', '.'])
         subprocess.run(['git', '-C', '/repo', 'clean', '-fdq'], check=False)
+        subprocess.run(['git', '-C', '/verif', 'checkout', '--', 'evidence'], check=False)  # evidence of a run against a changed tree is not evidence
     print(i, json.dumps(caught))
     ev = meta.setdefault('evaluated', {})
     for p, r in caught.items():
